@@ -19,7 +19,7 @@ OUTSIDE = 'longer signals; float rounding inside FITPACK/pchip; interp_envelope 
           'cover samples 0..N-1, the routine raises for every signal - not asserted); custom location-padding options (C06 checks that they arrive)'
 ASSUMPTIONS = ['splrep/splev(k=3,s=0) = exact rational not-a-knot cubic spline (validated against FITPACK on every knot set)',
                'pchip / symbolic-knot splines are uninterpreted interpolants: only evaluation abscissae and knot values are compared']
-REQUIRED_CLASSES = ['extrema:two-peaks', 'extrema:tie-plateau', 'pad:repadded', 'pad:custom-magnitude-mode', 'env:returned', 'env:none', 'parab:refined']
+REQUIRED_CLASSES = ['extrema:two-peaks', 'extrema:tie-plateau', 'extrema:narrow-integer-input', 'pad:repadded', 'pad:custom-magnitude-mode', 'env:returned', 'env:none', 'parab:refined']
 EXPECTED_LABELS = ['extrema-exact', 'troughs-exact', 'abs-peaks-exact', 'parabolic-vertex', 'padding-rule', 'padding-never-raises',
                    'envelope-length', 'envelope-on-integer-grid', 'envelope-through-extrema', 'envelope-never-raises']
 BUDGET_S = {'quick': 170, 'thorough': 900}
@@ -31,6 +31,9 @@ def configs(tier):
     q = tier == 'quick'
     for n in ((3, 4, 5, 6) if q else (3, 5, 7, 8)):
         out.append(('extrema-N%d' % n, {'kind': 'extrema', 'N': n}))
+    # narrow integer recordings (int8 stands for int16 ADC counts): extrema come from comparisons, never from wrapped differences
+    for n in ((5,) if q else (5, 6)):
+        out.append(('extrema-N%d-int8' % n, {'kind': 'extrema', 'N': n, 'int_bits': 8}))
     for n in ((4, 5) if q else (4, 5, 6)):
         out.append(('parabolic-N%d' % n, {'kind': 'parab', 'N': n}))
     for w in ((0, 1, 2, 3, 5) if q else (0, 1, 2, 3, 4, 5)):
@@ -83,7 +86,11 @@ def interpolant(method, locs, pks, t):
 
 def harness(h):
     kind, N = h.params['kind'], h.params['N']
-    x = h.reals('x', N)
+    if h.params.get('int_bits'):
+        x = h.int_array('x', N, -127, 127, bits=h.params['int_bits'])
+        h.note('extrema:narrow-integer-input')
+    else:
+        x = h.reals('x', N)
     if kind == 'extrema':
         pk = strict_maxima(x, N)
         tr = strict_maxima(-x, N)
